@@ -32,7 +32,7 @@ def gen_case(rng, i, tier):
         case["ops"] = gen.gen_history(rng, len(case["trace"]), case["cfg"]["width"], allow_cwd=False, max_ops=2)
         case["debug"] = False
         return case
-    case = mcase.gen_mcase(rng, width="maybe", tighten_p=0.35, sparse_p=0.2, max_obs=9)
+    case = mcase.gen_mcase(rng, families=gen.FAMILIES_ALL, width="maybe", tighten_p=0.35, sparse_p=0.2, max_obs=9)
     tr = case["trace"]
     r = rng.random()
     if r < 0.12:
